@@ -100,7 +100,8 @@ class DocGen:
         self.s_badparams = st.sampled_from([None, 1, 'x', True, 1.5, ''])
         self.s_idk = st.sampled_from(['call', 'call', 'call', 'notification', 'null'])
         self.s_member = st.sampled_from(['jsonrpc', 'id', 'method', 'params', 'extra', 'drop'])
-        self.s_extra = st.sampled_from(['extra', 'result', 'error', 'Id', 'meta'])
+        self.s_extra = st.sampled_from(['extra', 'result', 'error', 'Id', 'meta', 'auth', 'trace'])
+        self.s_ndev = st.sampled_from([1, 1, 2, 3])
         self.s_drop = st.sampled_from(['jsonrpc', 'method', 'id', 'params'])
         self.s_alpha = st.sampled_from(MEMBER_ALPHA)
         self.s_hugewhere = st.sampled_from(['id', 'param', 'nested', 'jsonrpc', 'method'])
@@ -111,8 +112,8 @@ class DocGen:
         self.s_indent = st.sampled_from([0, 0, 1])
         # JSON whitespace is space, tab, LF, CR only; the other blanks python's str.strip() / str.isspace() know are NOT
         _json_ws = st.sampled_from(['', '', '', ' ', '\n\t ', '\r\n'])
-        self.s_pad = st.one_of(_json_ws, _json_ws, _json_ws, _json_ws, _json_ws, _json_ws, _json_ws,
-                               st.sampled_from(['\x0c', '\xa0', '\u2028', '\x0b', '\x1c', '\x85', '\u3000', '\ufeff']))
+        self.s_pad = jg.weighted(_json_ws, _json_ws, _json_ws, _json_ws, _json_ws, _json_ws, _json_ws,
+                                 st.sampled_from(['\x0c', '\xa0', '\u2028', '\x0b', '\x1c', '\x85', '\u3000', '\ufeff']))
         self.s_raw = st.one_of(st.sampled_from(_RAW_TEXTS), st.sampled_from(_RAW_TEXTS), st.text(max_size=20))
         self.s_anyval = st.one_of(jg.cheap_value(), jg.cheap_value(), jg.json_value(6))
         self.s_depth = st.sampled_from([8, 31, 32, 48, 62])
@@ -136,8 +137,10 @@ class DocGen:
         self.element = st.composite(lambda draw, huge=False: self._element(draw, huge))
         self.document = st.composite(lambda draw: self._document(draw))()
 
-    def _params(self, draw, mspec: Optional[Dict[str, Any]]):
+    def _params(self, draw, mspec: Optional[Dict[str, Any]], clean: bool = False):
         shape = draw(self.s_shape)
+        if clean and shape == 'bad':
+            shape = 'exact-dict'
         if shape == 'absent':
             return {'absent': True}
         if shape == 'bad':
@@ -162,9 +165,12 @@ class DocGen:
         chosen = [n for i, n in enumerate(pool) if bits >> i & 1][:5]
         return {'value': {k: draw(self.s_val) for k in chosen}}
 
-    def _element(self, draw, huge: bool = False):
-        """one batch element / single request: mostly a valid request object aimed at a registered method"""
+    def _element(self, draw, huge: bool = False, clean: bool = False):
+        """one batch element / single request: mostly a valid request object aimed at a registered method;
+        clean: a well-formed request object (so that the batch around it is served element by element)"""
         flavour = draw(self.s_flavour)
+        if clean and flavour in ('deviant', 'non-object'):
+            flavour = 'valid'
         if flavour == 'non-object':
             return draw(self.s_nonobj)
         el: Dict[str, Any] = {'jsonrpc': '2.0'}
@@ -175,7 +181,7 @@ class DocGen:
             name = draw(self.s_name)
             el['method'] = name
             mspec = self.by_name[name]
-        p = self._params(draw, mspec)
+        p = self._params(draw, mspec, clean)
         if 'absent' not in p:
             el['params'] = p['value']
         idk = draw(self.s_idk)
@@ -184,13 +190,16 @@ class DocGen:
         elif idk == 'null':
             el['id'] = None
         if flavour == 'deviant':
-            member = draw(self.s_member)
-            if member == 'extra':
-                el[draw(self.s_extra)] = draw(self.s_val)
-            elif member == 'drop':
-                el.pop(draw(self.s_drop), None)
-            else:
-                el[member] = draw(self.s_alpha)
+            # one to three deviations on the same object: several extension members, an extension member next to a
+            # mistyped or missing standard one, ...
+            for _ in range(draw(self.s_ndev)):
+                member = draw(self.s_member)
+                if member == 'extra':
+                    el[draw(self.s_extra)] = draw(self.s_val)
+                elif member == 'drop':
+                    el.pop(draw(self.s_drop), None)
+                else:
+                    el[member] = draw(self.s_alpha)
         if huge:
             where = draw(self.s_hugewhere)
             if where == 'id':
@@ -228,8 +237,18 @@ class DocGen:
             ts['doc'] = self._element(draw, ts['huge'] if huge else False)
         else:
             n = draw(self.s_nbatch0 if kind == 'batch' else self.s_nbatch1)
-            els = [self._element(draw, (ts['huge'] if huge else False) if i == 0 else False) for i in range(n)]
-            if n >= 2 and draw(self.s_dup) == 0:
+            # half of the batches consist of well-formed request objects with distinct ids only: one malformed element or a repeated
+            # id has the whole batch refused, and then nothing of what the other elements ask for is exercised
+            clean = draw(self.s_bool)
+            els = [self._element(draw, (ts['huge'] if huge else False) if i == 0 else False, clean) for i in range(n)]
+            if clean:
+                seen: List[Any] = []
+                for el in els:
+                    if 'id' in el and el['id'] is not None:
+                        while any(type(el['id']) is type(s) and el['id'] == s for s in seen):
+                            el['id'] = el['id'] + 1 if isinstance(el['id'], int) else el['id'] + '_'
+                        seen.append(el['id'])
+            elif n >= 2 and draw(self.s_dup) == 0:
                 # duplicate ids at a chosen pair of positions: same value, or "1" next to 1 (not a duplicate)
                 i, j = draw(self.s_pos) % n, draw(self.s_pos) % n
                 if i != j and isinstance(els[i], dict) and isinstance(els[j], dict):
